@@ -150,6 +150,10 @@ def handlers : List (String × Handler) := [
   ("walk_cond", do
     let e ← float; let s ← trainState
     pure ("ok " ++ fB (walkCond ft1000 e s))),
+  -- does the `ensure!` after `self.step()?` in the loop of walk_internal fail:  <end> <speed before the step> <state after it>
+  ("walk_stuck", do
+    let e ← float; let vp ← float; let s ← trainState
+    pure ("ok " ++ fB (walkStuck ft1000 e vp s))),
   ("scaling_factor", do
     let a ← bool; let d ← opt float
     pure ("ok " ++ fF (scalingFactor 365.25 a d)))
